@@ -109,6 +109,24 @@ def plan(tier, seed):
         groups.append({"mode": "find-and-fix", "files": files, "result_files": {}, "argv": ["--codemod-include", ",".join(cms), "--path-exclude", ",".join(pats)], "sibling_probe": probes, "codemods": cms, "k": 4, "line_scoped": True})
         sfiles, res = sast_project(rnd, rnd.choice((9, 12, 18)))
         groups.append({"mode": "sast", "files": sfiles, "result_files": res, "argv": ["--sonar-issues-json", "{dir}/issues.json", "--sonar-hotspots-json", "{dir}/hotspots.json", "--sarif", "{dir}/semgrep.sarif", "--defectdojo-findings-json", "{dir}/dd.json"], "sibling_probe": []})
+    # hardening codemods on a project holding MANY call shapes of their trigger (C16's shapes: extra / preset keywords with every value of the documented vocabulary, * and ** arguments ...):
+    # what a codemod does to one file must not depend on which shapes it met in the files before it
+    from vf.checks import c16 as _c16
+    from vf import corpus as _corpus
+    hrecs = [r for r in _corpus.load() if r["codemod"].startswith("pixee:") and r["codemod"].split("/")[1] in _c16.VOCAB and r["input"] != r["expected"] and not r["files"]]
+    hby = collections.defaultdict(list)
+    for r in hrecs: hby[r["codemod"]].append(r)
+    multi = sorted(c for c in hby if len(_c16.vocab_keywords(c.split("/")[1])) >= 2) or sorted(hby)
+    picks_h = ["pixee:python/secure-flask-cookie"] if "pixee:python/secure-flask-cookie" in hby else []
+    picks_h += [c for c in rnd.sample(sorted(hby), min(len(hby), 1 if quick else 6)) if c not in picks_h]
+    for cid in picks_h:
+        files = {}
+        for r in sorted(hby[cid], key=lambda r: r["input"])[:3]:
+            for label, text in _c16.shapes(r["input"], cid.split("/")[1]):
+                files[f"shape_{hashlib.sha1(text.encode()).hexdigest()[:10]}.py"] = text.encode()
+        if len(files) < 4: continue
+        names = sorted(files)
+        groups.append({"mode": "find-and-fix", "files": files, "result_files": {}, "argv": ["--codemod-include", cid], "sibling_probe": names[-2:] + names[len(names) // 2: len(names) // 2 + 1], "codemods": [cid], "k": 3, "shapes": True})
     cases = []
     for gi, G in enumerate(groups):
         k = G.get("k") or (6 if quick else 14)
@@ -168,7 +186,7 @@ def judge_group(gi, G, items):
             a = per_file(ref[1]["report"], ref[1]["tree"], c["rel"]); b = per_file(r["report"], r["tree"], c["rel"])
             if a != b:
                 cm = next((x[0] for x, y in zip(a["changes"] + [(None,)], b["changes"] + [(None,)]) if x != y), "?")
-                viols.append(Violation("C11", f"sibling-dependent/{str(cm).split('/')[-1]}" + ("/line-scoped-patterns" if G.get("line_scoped") else ""), f"{c['rel']}: outcome with siblings differs from outcome alone", {"file": c["rel"], "with_siblings": a, "alone": b}, jobs=[strip(ref[0]), strip(c)]))
+                viols.append(Violation("C11", f"sibling-dependent/{str(cm).split('/')[-1]}" + ("/line-scoped-patterns" if G.get("line_scoped") else "") + ("/call-shapes-project" if G.get("shapes") else ""), f"{c['rel']}: outcome with siblings differs from outcome alone", {"file": c["rel"], "with_siblings": a, "alone": b}, jobs=[strip(ref[0]), strip(c)]))
     info["sibling_checked"] = sib
     return viols, info
 
